@@ -33,7 +33,7 @@ LIST_LABELS = ("lpush", "rpush", "lpop", "rpop", "llen", "lindex", "lrange", "ls
 ks.family_check(
     "C09", tier,
     b1_instances=[("MC_List", "MC_List.cfg" if tier == "quick" else "MC_List_thorough.cfg")],
-    b2_families=["list"],
+    b2_families=["list", "listdeep"],
     level_text="", assumptions=[
         "reference semantics = Redis command reference as transcribed in spec/KsList.tla",
         "B1 exhaustive within the instance bounds (2 lists, elements {a,b}, length <= 3/4); B2 sampled",
